@@ -159,6 +159,10 @@ type Hooks struct {
 	SameEffect func(a, b *State) bool
 	// Decision is told which way an undecided condition went on this path.
 	Decision func(in *Interp, st *State, cond ast.Expr, v Value, branch bool)
+	// Send is told about channel sends; Recv about receive expressions; Go about go statements.
+	Send func(in *Interp, st *State, s *ast.SendStmt, v Value)
+	Recv func(in *Interp, st *State, e *ast.UnaryExpr) (Value, bool)
+	Go   func(in *Interp, st *State, s *ast.GoStmt)
 	// LoopNeutral tells whether one loop iteration left the tracked state
 	// unchanged (defaults to SameEffect).
 	LoopNeutral func(a, b *State) bool
@@ -334,6 +338,39 @@ func (in *Interp) exec(st *State, s ast.Stmt) []*State {
 	case *ast.DeferStmt:
 		st.Defers = append(st.Defers, s.Call)
 		return []*State{st}
+	case *ast.SendStmt:
+		var out []*State
+		for _, vs := range in.eval(st, s.Value) {
+			if in.h.Send != nil {
+				in.h.Send(in, vs.st, s, vs.v)
+			}
+			out = append(out, vs.st)
+		}
+		return out
+	case *ast.GoStmt:
+		if in.h.Go != nil {
+			in.h.Go(in, st, s)
+		}
+		return []*State{st}
+	case *ast.SelectStmt:
+		// every communication clause may be the one that proceeds
+		var out []*State
+		for _, cl := range s.Body.List {
+			cc := cl.(*ast.CommClause)
+			b := st.clone()
+			sts := []*State{b}
+			if cc.Comm != nil {
+				sts = in.exec(b, cc.Comm)
+			}
+			res := in.execBlock(sts, cc.Body)
+			for _, x := range res {
+				if x.Term == tBreak && x.Label == "" {
+					x.Term = tNone
+				}
+			}
+			out = append(out, res...)
+		}
+		return out
 	default:
 		in.undecided(s, fmt.Sprintf("statement kind %T is outside the modelled subset", s))
 		return []*State{st}
@@ -414,6 +451,9 @@ func (in *Interp) store(st *State, lhs ast.Expr, op token.Token, v Value) {
 	lhs = stripParens(lhs)
 	if id, ok := lhs.(*ast.Ident); ok {
 		if id.Name == "_" {
+			return
+		}
+		if in.h.Store != nil && in.h.Store(in, st, lhs, op, v) {
 			return
 		}
 		obj := in.c.objOf(id)
@@ -952,6 +992,12 @@ func (in *Interp) eval(st *State, e ast.Expr) []valState {
 				}
 			case token.AND:
 				v = vs.v // address-of keeps the abstract value
+			case token.ARROW:
+				if in.h.Recv != nil {
+					if rv, ok := in.h.Recv(in, vs.st, e); ok {
+						v = rv
+					}
+				}
 			}
 			out = append(out, valState{vs.st, v})
 		}
